@@ -385,6 +385,39 @@ def check(run):
                               key=key_of("C20-R6", f.qualname, "as_strided"))
     run.instance("R6", "trimesh/exchange", f"{n6} as_strided windows examined", True, nontrivial=False)
 
+    # ------------------------------------------------------------------ R7 a caller's accumulator is not dropped when it is empty
+    run.rule("R7", "a parameter that a function fills in place on behalf of its caller (memo of names seen, counts) is defaulted with `is None`, never with `or`: an EMPTY "
+                   "container is falsy, `p = p or {}` replaces the caller's dict by a private one on every call and the memo never grows (quadratic loading of many "
+                   "same-named items)")
+    n7 = 0
+    for f in ix.all_functions:
+        if not f.module.name.startswith("trimesh."):
+            continue
+        params = set(f.params)
+        if not params:
+            continue
+        filled = set()
+        for n_ in ast.walk(f.node):
+            if isinstance(n_, (ast.Assign, ast.AugAssign)):
+                for t_ in (n_.targets if isinstance(n_, ast.Assign) else [n_.target]):
+                    if isinstance(t_, ast.Subscript) and isinstance(t_.value, ast.Name) and t_.value.id in params:
+                        filled.add(t_.value.id)
+            elif isinstance(n_, ast.Call) and isinstance(n_.func, ast.Attribute) and isinstance(n_.func.value, ast.Name) and n_.func.value.id in params \
+                    and n_.func.attr in ("add", "append", "update", "setdefault", "extend"):
+                filled.add(n_.func.value.id)
+        for p_ in sorted(filled):
+            n7 += 1
+            bad = [st_ for st_ in ast.walk(f.node) if isinstance(st_, ast.Assign) and len(st_.targets) == 1 and isinstance(st_.targets[0], ast.Name) and st_.targets[0].id == p_
+                   and isinstance(st_.value, ast.BoolOp) and isinstance(st_.value.op, ast.Or) and isinstance(st_.value.values[0], ast.Name) and st_.value.values[0].id == p_
+                   and isinstance(st_.value.values[-1], (ast.Dict, ast.List, ast.Set, ast.Call))]
+            ok = not bad
+            if not ok or f.module.name.startswith(("trimesh.exchange", "trimesh.util", "trimesh.path.exchange")):
+                run.instance("R7", f.where, f"{f.qualname}: parameter `{p_}` is filled in place for the caller; defaulted by truthiness: {bool(bad)}", ok)
+            if not ok:
+                run.violation("R7", f"{f.module.rel}:{bad[0].lineno} {f.qualname}", f"`{ast.unparse(bad[0])}` in `{f.qualname}`: the caller's `{p_}` is replaced whenever it is empty, so what this call records in it "
+                                                                                    f"is lost and every later call starts from nothing", key=key_of("C20-R7", f.qualname, p_))
+    run.instance("R7", "trimesh", f"{n7} parameters filled in place examined", True, nontrivial=False)
+
     run.assume("time / memory proportionality beyond the STL and PLY header guards, third-party parsers (lxml, json, PIL, collada, meshio), and "
                "RecursionError on cyclic references are not decided")
     return {
